@@ -111,3 +111,33 @@ Print Assumptions C06_schedule_search_terminates.
 Theorem C06_whole_pipeline_returns : stmt_whole_pipeline_returns_loaded.
 Proof. exact whole_pipeline_returns_loaded. Qed.
 Print Assumptions C06_whole_pipeline_returns.
+
+(** THE SLOT DISTRIBUTION NEVER PANICS (SlotDist.v; f32 arithmetic modelled by hand in F32.v with NaN and infinity explicit):
+    for every network with at least one vehicle type (or no track to hand out) and u64 figures, no NaN reaches
+    `partial_cmp(..).unwrap()`, no infinite distance reaches `in_meter().unwrap()` and `min_by` never sees an empty list.
+    The conversion of a u64 is always finite and canonical; rounding never produces NaN. Both hypotheses are necessary: without
+    a type `min_by(..).unwrap()` panics (witness), and the pre-repair increment (no test for a zero total) is NaN on a witness
+    (the defect repaired by "fix: maintenance slot distribution panics on NaN priority"). The circulation handed to the flow
+    solver is feasible for the DISTRIBUTED slots of every loaded network: the slots are no longer an oracle. *)
+From RS Require Import F32 SlotDist SlotDistStmts SlotDistFacts.
+Theorem C06_slot_distribution_never_panics : stmt_distribute_total.
+Proof. exact distribute_total. Qed.
+Print Assumptions C06_slot_distribution_never_panics.
+Theorem C06_u64_as_f32_finite : stmt_f_of_u64_finite.
+Proof. exact f_of_u64_finite. Qed.
+Print Assumptions C06_u64_as_f32_finite.
+Theorem C06_rounding_never_nan : stmt_round_q_not_nan.
+Proof. exact round_q_not_nan. Qed.
+Print Assumptions C06_rounding_never_nan.
+Theorem C06_distribution_without_type_panics : stmt_distribute_no_type_panics.
+Proof. exact distribute_no_type_panics. Qed.
+Print Assumptions C06_distribution_without_type_panics.
+Theorem C06_prefix_increment_nan : stmt_prefix_increment_nan.
+Proof. exact prefix_increment_nan. Qed.
+Print Assumptions C06_prefix_increment_nan.
+Theorem C06_slots_lookup_total : stmt_slots_of_total.
+Proof. exact slots_of_total. Qed.
+Print Assumptions C06_slots_lookup_total.
+Theorem C06_circulation_feasible_for_distributed_slots : stmt_circulation_feasible_distributed.
+Proof. exact circulation_feasible_distributed. Qed.
+Print Assumptions C06_circulation_feasible_for_distributed_slots.
